@@ -325,6 +325,30 @@ def accuracy(ctx, n_curves):
                                   lambda: {**wit(), "t_err": et, "bound_t": bound_t, "x_err": ex, "bound_x": bound_x})
                         emax.append(max(et, ex))
                     errs.append(emax)
+                # T5: the same samples with DECREASING time stamps (t -> -t; what a stable manifold, integrated backward, hands to the
+                # detector).  Completeness must not depend on the sign of dt.  Which orientation "direction" refers to for such input
+                # (sample order or increasing time) is not fixed by the statement: either reading is accepted, a mixture is not.
+                n = n0
+                times = np.linspace(0, T, n + 1)
+                states = cv.x(times)
+                dt = T / n
+                try:
+                    hneg = run_detector(be, -times, states, normal=normal, offset=offset, plane_coords=names, interp_kind=kind,
+                                        segment_refine=refine, direction=direction, dedup_time_tol=0.0, dedup_point_tol=0.0)
+                except Exception as exc:
+                    ctx.check(False, "T5:detector accepts strictly decreasing time stamps", {"T": T, "n": n, "kind": kind, "error": repr(exc)[:300]})
+                    hneg = None
+                if hneg is not None:
+                    htn = np.array([h.time for h in hneg])
+                    bt = 0.5 * M2 * dt * dt / float(np.min(np.abs(gd))) * 1.5 + 1e-13
+                    classes = [roots] if direction is None else [[q for q in roots if q[1] == direction], [q for q in roots if q[1] == -direction]]
+                    ok = any(len(htn) == len(c) and (len(c) == 0 or np.max(np.abs(np.sort(htn) - np.sort([-r for r, _ in c]))) <= bt) for c in classes)
+                    ctx.case(f"analytic-decreasing-times:{kind}:refine{refine}", [it, ctx.seed, n, kind, refine], nontrivial=len(roots) > 0)
+                    witn = {"T": T, "n": n, "kind": kind, "refine": refine, "direction": direction, "normal": normal, "offset": offset, "w": cv.w,
+                            "exact_crossings(-t, orientation)": [(-r, sg) for r, sg in roots], "lib": htn.tolist(), "bound_t": bt}
+                    ctx.check(ok, "T5:one hit per admissible exact crossing for decreasing time stamps", witn)
+                    dmon = np.diff(htn)
+                    ctx.check(htn.size < 2 or np.all(dmon > 0) or np.all(dmon < 0), "T5:hits of a decreasing-time trajectory are reported in monotone order", witn)
                 if errs is None:
                     continue
                 for ea, eb in zip(errs[:-1], errs[1:]):
@@ -507,3 +531,4 @@ def run(ctx):
     ctx.require("T1:every admissible crossing reported once", 0)
     ctx.require("T1:hits in time order", 200 if ctx.nshards == 1 else 20)
     ctx.require("T2:one hit per admissible exact crossing", 50 if ctx.nshards == 1 else 5)
+    ctx.require("T5:one hit per admissible exact crossing for decreasing time stamps", 20 if ctx.nshards == 1 else 2)
